@@ -5,11 +5,14 @@ package main
 
 import (
 	"fmt"
+	"regexp"
 	"sort"
 	"strings"
 
 	"golang.org/x/tools/go/ssa"
 )
+
+var serCallRe = regexp.MustCompile(`driver\.\(Base\)\.[A-Za-z0-9_]+\(`)
 
 func setKeys(m map[string]bool) []string {
 	var out []string
@@ -222,10 +225,11 @@ func ruleSIBSER(c *Ctx, r *Report) {
 				// these do not carry values: same skeletons, same guards
 				sa, sb := strings.Join(setKeys(a.skels), " | "), strings.Join(setKeys(b.skels), " | ")
 				// normalise the recursive call names
+				// the recursive call may go through a helper method of the driver (e.g. one that
+				// special-cases an unbounded range end): any driver method applied to the same
+				// sub-term is the same hole
 				norm := func(s string) string {
-					s = strings.ReplaceAll(s, fnName(dr.SerParam), "SER")
-					s = strings.ReplaceAll(s, fnName(dr.Ser), "SER")
-					return s
+					return serCallRe.ReplaceAllString(s, "SER(")
 				}
 				ga, gb := strings.Join(setKeys(a.guards), " ∧ "), strings.Join(setKeys(b.guards), " ∧ ")
 				if norm(sa) != norm(sb) {
